@@ -1,8 +1,10 @@
 (* C13 entry.  case = (ftype path passes opts sizes text threads), see harness/src/bin/c13.rs.
    model output: (0) accepted | (1 class) refused | (2) panic | (3) no return.
    oracle: the property on what the implementation returned: it returned (no panic, no hang);
-   a text carrying a violation class is refused (any class); a text carrying none is accepted. *)
-From BT Require Import Base.Util Base.Sexp Base.Float Model.RTree Model.BBIFile Model.BigWigWrite Model.EntryBBI Model.Accept.
+   a text carrying a violation class is refused (any class); a text carrying none is accepted.
+   The text sources are the ones behind the real line reader (Model/Utf8.v): a line that is not
+   well-formed UTF-8 is a malformed line (read_line fails: class 50), so such a text must be refused. *)
+From BT Require Import Base.Util Base.Sexp Base.Float Model.RTree Model.BBIFile Model.BigWigWrite Model.EntryBBI Model.Accept Model.Utf8.
 Local Open Scope N_scope.
 
 (* ---- instantiation of the f32-token parameter (glue, validated differentially; the
@@ -52,11 +54,11 @@ Definition c13_verdict (c : sexp) : res unit :=
   if negb (opts_ok o) then Err E_OPTIONS else
   if (c_path c =? 2) && match c_text c with [] => true | _ => false end then Err 51 (* index_chroms: "Empty file" *) else
   if c_ftype c =? 0 then
-    if c_path c =? 0 then bw_text_serial f32_token_ok o (c_sizes c) (c_text c)
-    else bw_text_parallel f32_token_ok o (c_sizes c) (c_text c)
+    if c_path c =? 0 then bw_text_serial_u f32_token_ok o (c_sizes c) (c_text c)
+    else bw_text_parallel_u f32_token_ok o (c_sizes c) (c_text c)
   else
-    if c_path c =? 0 then bb_text_serial o (c_sizes c) (c_text c)
-    else bb_text_parallel o (c_sizes c) (c_text c).
+    if c_path c =? 0 then bb_text_serial_u o (c_sizes c) (c_text c)
+    else bb_text_parallel_u o (c_sizes c) (c_text c).
 
 Definition c13_model (c : sexp) : sexp :=
   match c13_verdict c with
@@ -73,7 +75,7 @@ Definition violates {V} (vclass : N -> V -> option V -> option N) (o : opts) (si
   match l with
   | [] => true                                    (* empty input *)
   | _ => match all_ok l with
-         | None => true                           (* a malformed line *)
+         | None => true                           (* a malformed line (incl. a line that is not UTF-8) *)
          | Some items => match first_some (classes vclass (o_sort_all o) sizes [] None items) with
                          | Some _ => true | None => false end
          end
@@ -91,10 +93,10 @@ Definition c13_oracle (c out : sexp) : sexp :=
     if negb (opts_ok o) then sB true else
     let refused := Z.eqb status 1 in
     if c_ftype c =? 0 then
-      let l := bw_lines f32_token_ok (c_text c) in
+      let l := bw_lines_u f32_token_ok (c_text c) in
       if not_claimed c o l then sB true else sB (Bool.eqb (violates bw_val_class o (c_sizes c) l) refused)
     else
-      let l := bb_lines (c_text c) in
+      let l := bb_lines_u (c_text c) in
       if not_claimed c o l then sB true else sB (Bool.eqb (violates bb_val_class o (c_sizes c) l) refused).
 
 Definition dispatch (k : Z) (arg : sexp) : sexp :=
